@@ -81,7 +81,7 @@ func runC08(cfg *config, res *monitor.Result) {
 				return
 			}
 			if measure {
-				limit := uint64(64*len(b) + 64<<10)
+				limit := uint64(256*len(b) + 64<<10) // linear with a generous constant, see wl-wire/total.go
 				if alloc > limit {
 					min := alloc
 					for i := 0; i < 2; i++ {
